@@ -476,9 +476,91 @@ def _reachable(spec):
   return len(seen_n) == len(spec['nodes']) and len(seen_v) == len(spec['vars'])
 
 
+def _get_twice(variable, value):
+  return value * 2.0
+
+
+def _set_plus(variable, value):
+  return value + 0.25
+
+
+def run_hooked(ctx, i, rng):
+  """Variables with value hooks (on_get_value / on_set_value metadata, or a subclass overriding them): split, state, clone, pop and
+  update(g, state(g)) move the STORED value (raw_value) and the metadata unchanged - a hook is applied when user code reads or
+  writes .value, never by the graph operations themselves."""
+  import jax.numpy as jnp
+  from flax import nnx
+  kind = ['get_meta', 'set_meta', 'both_meta', 'subclass'][i % 4]
+  shared = (i // 4) % 2 == 1
+  desc = dict(hooks=kind, shared=shared)
+  with ctx.case('hooked', i, desc, nontrivial=True):
+    class Hooked(nnx.Param):
+      def on_get_value(self, value):
+        return value * 3.0
+
+    class Box(nnx.Module):
+      pass
+
+    def build():
+      g = Box()
+      g.inner = Box()
+      raw = jnp.asarray([1.0, -2.0]) + i
+      if kind == 'subclass':
+        v = Hooked(raw)
+      else:
+        md = {}
+        if kind in ('get_meta', 'both_meta'):
+          md['on_get_value'] = _get_twice
+        if kind in ('set_meta', 'both_meta'):
+          md['on_set_value'] = _set_plus
+        v = nnx.Param(raw, **md)
+      g.inner.w = v
+      if shared:
+        g.alias = v
+      g.plain = nnx.BatchStat(jnp.asarray([5.0]))
+      return g, v
+
+    def raw_of(var):
+      return np.asarray(var.raw_value)
+
+    g, v = build()
+    raw0 = raw_of(v).copy()
+    val0 = np.asarray(v.value)
+    same = lambda a, b: a.shape == b.shape and np.array_equal(a, b)  # noqa: E731
+    # split / merge
+    gd, st = nnx.split(g)
+    m = nnx.merge(gd, st)
+    ctx.op('split/merge(hooked Variable)')
+    ctx.check(same(raw_of(m.inner.w), raw0) and same(raw_of(v), raw0), 'roundtrip:hooked_value_changed', lambda: dict(case=desc, got=raw_of(m.inner.w).tolist(), want=raw0.tolist()))
+    ctx.check(same(np.asarray(m.inner.w.value), val0), 'roundtrip:hooked_read_differs', lambda: dict(case=desc))
+    if shared:
+      ctx.check(m.alias is m.inner.w, 'roundtrip:sharing_lost:hooked', lambda: dict(case=desc))
+    # clone
+    c = nnx.clone(g)
+    ctx.op('clone(hooked Variable)')
+    ctx.check(same(raw_of(c.inner.w), raw0), 'clone:hooked_value_changed', lambda: dict(case=desc, got=raw_of(c.inner.w).tolist(), want=raw0.tolist()))
+    # update with its own state is the identity on stored values
+    nnx.update(g, nnx.state(g))
+    ctx.op('update(g, state(g)) with hooked Variable')
+    ctx.check(same(raw_of(v), raw0), 'update:hooked_value_changed', lambda: dict(case=desc, got=raw_of(v).tolist(), want=raw0.tolist()))
+    # repeated round trips do not compound
+    g2 = g
+    for _ in range(3):
+      g2 = nnx.merge(*nnx.split(g2))
+    ctx.check(same(raw_of(g2.inner.w), raw0), 'roundtrip:hooked_value_changed', lambda: dict(case=desc, repeated=3, got=raw_of(g2.inner.w).tolist()))
+    # pop hands the stored value out
+    g3, v3 = build()
+    popped = nnx.pop(g3, nnx.Param)
+    ctx.op('pop(hooked Variable)')
+    leaf = [x for _, x in nnx.to_flat_state(popped)][0]   # listed under its first path ('alias' sorts before 'inner')
+    ctx.check(same(np.asarray(leaf.value), raw0), 'pop:hooked_value_changed', lambda: dict(case=desc, got=np.asarray(leaf.value).tolist(), want=raw0.tolist()))
+
+
 def run(ctx):
   from vf.gen import nnx_graph as G
   install_hooks(ctx)
+  for i in ctx.indices(16, 'hooked'):
+    run_hooked(ctx, i, ctx.rng('hooked', i))
   n = 1500 if ctx.tier == 'quick' else 9000
   for i in ctx.indices(n, 'graph'):
     rng = ctx.rng('graph', i)
